@@ -71,22 +71,25 @@ def _is_const_object(t):
 
 
 def var_refs(fn):
-    """[(decl_id, name, node, is_write)] for every DeclRefExpr to a VarDecl in fn
-    (excluding nested lambdas' bodies, which are separate functions)."""
-    writes = set()
+    """[(decl_id, name, node, write)] for every DeclRefExpr to a VarDecl in fn (nested
+    lambdas excluded).  write: None (read), 'direct' (the variable itself is the
+    target) or 'through' (something reached through it is written)."""
+    writes = {}
     for x in _walk_no_lambda(fn):
         if x.get('kind') in ('BinaryOperator', 'CompoundAssignOperator', 'UnaryOperator', 'CallExpr',
                              'CXXMemberCallExpr', 'CXXOperatorCallExpr', 'CXXConstructExpr'):
             for lv in _direct_writes(x):
                 r = _root_ref(lv)
                 if r is not None:
-                    writes.add(id(r))
+                    direct = peel(lv) is r and not (x.get('kind') == 'UnaryOperator' and x.get('opcode') == '&')
+                    if writes.get(id(r)) != 'direct':
+                        writes[id(r)] = 'direct' if direct else 'through'
     out = []
     for x in _walk_no_lambda(fn):
         if x.get('kind') == 'DeclRefExpr':
             rd = x.get('referencedDecl') or {}
             if rd.get('kind') == 'VarDecl':
-                out.append((rd.get('id'), rd.get('name'), x, id(x) in writes))
+                out.append((rd.get('id'), rd.get('name'), x, writes.get(id(x))))
     return out
 
 
